@@ -133,7 +133,10 @@ def run_shard(binpath, mode, seed, tier, n, outdir, replay=None, extra=()):
             return {"error": f"driver {name} exited {rc}: {err[-1000:]}"}
         outs[name] = open(path).read().split("\n")
     rd = lambda f: open(os.path.join(outdir, f)).read().split("\n")
-    return {"ops": rd("ops.txt"), "impl": rd("impl.txt"), "expect": rd("expect.txt"), "models": outs,
+    n_ops = len(rd("ops.txt"))
+    for k in outs:     # a truncated model stream shows up as disagreements, not as an exception
+        outs[k] = outs[k] + ["<missing>"] * max(0, n_ops - len(outs[k]))
+    return {"ops": rd("ops.txt"), "impl": rd("impl.txt") + ["<missing>"] * 2, "expect": rd("expect.txt") + [""] * 2, "models": outs,
             "report": json.load(open(os.path.join(outdir, "report.json"))), "dir": outdir}
 
 
